@@ -124,12 +124,23 @@ func (d *ioDoc) has(name string) bool {
 	return false
 }
 
+// oasFormat draws the format written beside a type: none, one the formats define, or one they do not (a reader
+// ignores a format it does not know).  Set per document from its seed.
+var oasFormat = func(kind string) string { return "" }
+
+func withFormat(s m, kind string) m {
+	if f := oasFormat(kind); f != "" {
+		s["format"] = f
+	}
+	return s
+}
+
 func oasPrim(base string) m {
 	switch base {
 	case "int":
-		return m{"type": "integer"}
+		return withFormat(m{"type": "integer"}, "int")
 	case "float":
-		return m{"type": "number"}
+		return withFormat(m{"type": "number"}, "float")
 	case "bool":
 		return m{"type": "boolean"}
 	case "date":
@@ -223,6 +234,23 @@ func renderOpenAPI(d *ioDoc, v3 bool, pathLevel bool, shape map[string]any) m {
 		return p
 	}
 	paths := m{}
+	// the variables of a path can sit on the path item only if its operations agree on their types
+	ppSig := func(e ioEp) string {
+		var b strings.Builder
+		for _, p := range e.PParams {
+			b.WriteString(p.Name + ":" + p.Base + ";")
+		}
+		return b.String()
+	}
+	agree := map[string]bool{}
+	first := map[string]string{}
+	for _, e := range d.Eps {
+		if s0, seen := first[e.Path]; !seen {
+			first[e.Path], agree[e.Path] = ppSig(e), true
+		} else if s0 != ppSig(e) {
+			agree[e.Path] = false
+		}
+	}
 	for _, e := range d.Eps {
 		item, _ := paths[e.Path].(m)
 		if item == nil {
@@ -234,7 +262,7 @@ func renderOpenAPI(d *ioDoc, v3 bool, pathLevel bool, shape map[string]any) m {
 		for _, p := range e.PParams {
 			shared = append(shared, param(p.Name, "path", p.Base, false, true))
 		}
-		if pathLevel && len(shared) > 0 {
+		if pathLevel && len(shared) > 0 && agree[e.Path] {
 			item["parameters"] = shared
 		} else {
 			ps = append(ps, shared...)
@@ -661,16 +689,22 @@ func identOf(name string) string {
 func renderSysl(d *ioDoc) string {
 	var sb strings.Builder
 	sb.WriteString(ioApp + " \"Generated\" [version=\"1.0\"]:\n")
+	// one block per path and typing of its variables (two methods of a path may type a variable differently)
 	byPath := map[string][]ioEp{}
 	var order []string
 	for _, e := range d.Eps {
-		if _, ok := byPath[e.Path]; !ok {
-			order = append(order, e.Path)
+		k := e.Path + "\x00"
+		for _, pp := range e.PParams {
+			k += pp.Name + ":" + pp.Base + ";"
 		}
-		byPath[e.Path] = append(byPath[e.Path], e)
+		if _, ok := byPath[k]; !ok {
+			order = append(order, k)
+		}
+		byPath[k] = append(byPath[k], e)
 	}
-	for _, p := range order {
-		es := byPath[p]
+	for _, k := range order {
+		es := byPath[k]
+		p := es[0].Path
 		path := p
 		for _, pp := range es[0].PParams {
 			path = strings.Replace(path, "{"+pp.Name+"}", "{"+pp.Name+" <: "+pp.Base+"}", 1)
@@ -1354,7 +1388,20 @@ func interopImport(w *tr.Writer, sc *ioScenario, logger *logrus.Logger) {
 			if sc.PathLevel != "" {
 				pl = sc.PathLevel == "yes"
 			}
+			// formats beside integer and number: every third document writes some, among them ones no version of the
+			// format defines
+			oasFormat = func(string) string { return "" }
+			if sc.ID%3 == 0 {
+				frng := rand.New(rand.NewSource(sc.Seed*31 + int64(sc.ID)))
+				oasFormat = func(kind string) string {
+					if kind == "int" {
+						return []string{"", "int32", "int64", "uint32", "int16"}[frng.Intn(5)]
+					}
+					return []string{"", "float", "double", "decimal"}[frng.Intn(4)]
+				}
+			}
 			content, err = encodeDoc(renderOpenAPI(&sc.Doc, sc.Fmt == "openapi3", pl, shape), sc.Enc)
+			oasFormat = func(string) string { return "" }
 		case "xsd":
 			ext, content = ".xsd", renderXSD(&sc.Doc)
 		case "avro":
